@@ -91,13 +91,21 @@ theorem learn_errResp (o : Outcome) (r : Req) : learn r (errResp o r) = [] := by
   unfold errResp
   cases o <;> cases r <;> simp [learn, Req.isWrite]
 
+theorem insertByName_ne_nil (o : Obj) (l : List Obj) : insertByName o l ≠ [] := by
+  cases l with
+  | nil => simp [insertByName]
+  | cons x xs => unfold insertByName; split <;> simp
+
+theorem sortByName_nil {l : List Obj} (h : sortByName l = []) : l = [] := by
+  cases l with
+  | nil => rfl
+  | cons x xs => exact absurd h (insertByName_ne_nil _ _)
+
 theorem ofKind_nil {s : St} {kd : Kind} (h : ofKind s kd = []) : ∀ o ∈ s.objs, o.key.kind ≠ kd := by
   intro o ho hk
-  have hp := List.mergeSort_perm (s.objs.filter (fun o => o.key.kind = kd)) (fun a b => decide (a.key.name ≤ b.key.name))
-  unfold ofKind at h
-  rw [h] at hp
+  have hn := sortByName_nil h
   have : o ∈ s.objs.filter (fun o => o.key.kind = kd) := List.mem_filter.mpr ⟨ho, by simpa using hk⟩
-  have := hp.symm.subset this
+  rw [hn] at this
   cases this
 
 theorem find_commit_cases (s : St) (o o' : Obj) (ho : find s o.key = some o) (hk : o'.key = o.key) (c : Obj)
@@ -212,12 +220,12 @@ theorem learn_sound (s : St) (r : Req) : ∀ f ∈ learn r (exec s r).2, f.holds
     simp [exec, learn] at hf; subst hf
     simp [exec, Fact.holds]
   | lockRemove rv n => exact learn_sound_lockRemove s rv n
-  | listUsagesOf n => intro f hf; simp [exec, learn] at hf
+  | listUsagesOf n => intro f hf; simp [learn] at hf
   | setStatus k rv cs => intro f hf; simp [learn] at hf
   | removeFin k rv fin => intro f hf; simp [learn] at hf
-  | deleteAll kd => intro f hf; simp [exec, learn] at hf
+  | deleteAll kd => intro f hf; simp [learn] at hf
   | unlabel k rv => intro f hf; simp [learn] at hf
-  | cacheDelete n => intro f hf; simp [exec, learn] at hf
+  | cacheDelete n => intro f hf; simp [learn] at hf
 
 
 /-! ### from what was seen to what holds now -/
@@ -424,5 +432,99 @@ theorem safe_of_guard (s : St) (c : Ctl) (n : String) (h : Hist) (r : Req)
   | lockRemove rv m => rfl
   | unlabel k rv => rfl
   | cacheDelete m => rfl
+
+
+/-! ### the invariant of the interleaved system -/
+
+def ThreadOK (st : St) (t : Thread) : Prop :=
+  Always (guardH t.ctl t.name) t.hist t.prog ∧ ∀ f ∈ facts t.hist, f.holds st
+
+def Inv (s : Sys) : Prop := ∀ t ∈ s.ths, ThreadOK s.st t
+
+theorem ThreadOK.le {st st' : St} {t : Thread} (hle : Le st st') (h : ThreadOK st t) : ThreadOK st' t :=
+  ⟨h.1, fun f hf => Fact.holds_le hle f (h.2 f hf)⟩
+
+theorem ThreadOK.dead {st : St} {t : Thread} (h : ThreadOK st t) : ThreadOK st t.dead :=
+  ⟨trivial, h.2⟩
+
+theorem inv_env (s : Sys) (st' : St) (hle : Le s.st st') (hi : Inv s) : Inv { s with st := st' } :=
+  fun t ht => (hi t ht).le hle
+
+theorem inv_act (s : Sys) (a : Act) (hi : Inv s) : Inv (s.act a) := by
+  cases a with
+  | spawn c n =>
+    intro t ht
+    simp only [Sys.act, List.mem_append, List.mem_singleton] at ht
+    rcases ht with ht | rfl
+    · exact hi t ht
+    · exact ⟨always_program c n, by intro f hf; simp [facts] at hf⟩
+  | del k => exact inv_env s _ (le_deleteKey _ _ _) hi
+  | gc => exact inv_env s _ (le_gcStep _) hi
+  | unfin k f => exact inv_env s _ (le_envUnfin _ _ _) hi
+  | step i o =>
+    simp only [Sys.act]
+    cases hti : s.ths[i]? with
+    | none => exact hi
+    | some t =>
+      simp only []
+      have htm : t ∈ s.ths := List.mem_of_getElem? hti
+      have hok := hi t htm
+      cases hp : t.prog with
+      | ret a => exact hi
+      | call r k =>
+        simp only []
+        have hal : guardH t.ctl t.name t.hist r ∧ ∀ x, Always (guardH t.ctl t.name) (t.hist ++ [(r, x)]) (k x) := by
+          have := hok.1; rw [hp] at this; exact this
+        -- a thread that saw a reply which teaches nothing
+        have silent : ∀ x, learn r x = [] →
+            Inv { s with ths := s.ths.set i { t with hist := t.hist ++ [(r, x)], prog := k x } } := by
+          intro x hx t' ht'
+          rcases List.mem_or_eq_of_mem_set ht' with h' | rfl
+          · exact hi t' h'
+          · refine ⟨hal.2 x, ?_⟩
+            intro f hf
+            simp only [facts_append, hx, List.append_nil] at hf
+            exact hok.2 f hf
+        cases o with
+        | ok =>
+          simp only []
+          intro t' ht'
+          rcases List.mem_or_eq_of_mem_set ht' with h' | rfl
+          · exact (hi t' h').le (le_exec _ _)
+          · refine ⟨hal.2 _, ?_⟩
+            intro f hf
+            simp only [facts_append, List.mem_append] at hf
+            rcases hf with hf | hf
+            · exact Fact.holds_le (le_exec _ _) f (hok.2 f hf)
+            · exact learn_sound _ _ f hf
+        | fail => exact silent _ (learn_errResp _ _)
+        | conflict => exact silent _ (learn_errResp _ _)
+        | crashBefore =>
+          intro t' ht'
+          simp only [List.mem_map] at ht'
+          obtain ⟨t0, h0, rfl⟩ := ht'
+          exact ((hi t0 h0).le (le_crash _)).dead
+        | crashAfter =>
+          intro t' ht'
+          simp only [List.mem_map] at ht'
+          obtain ⟨t0, h0, rfl⟩ := ht'
+          exact ((hi t0 h0).le ((le_exec _ _).trans (le_crash _))).dead
+
+theorem inv_run (s : Sys) (acts : List Act) (hi : Inv s) : Inv (s.run acts) := by
+  induction acts generalizing s with
+  | nil => exact hi
+  | cons a rest ih => exact ih _ (inv_act s a hi)
+
+/-- In every configuration reachable from any store with no reconcile in flight, the next
+request of every in-flight reconcile satisfies the ordering constraint in the current
+state — whatever the interleaving, the faults and the crashes so far. -/
+theorem safe_reachable (st0 : St) (acts : List Act) (t : Thread) (r : Req) (k : Resp → P)
+    (ht : t ∈ (Sys.run ⟨st0, []⟩ acts).ths) (hp : t.prog = .call r k) :
+    safeReq (Sys.run ⟨st0, []⟩ acts).st t.ctl t.name r = true := by
+  have hinv : Inv (Sys.run ⟨st0, []⟩ acts) := inv_run _ acts (by intro t ht; cases ht)
+  have hok := hinv t ht
+  have hg : guardH t.ctl t.name t.hist r := by
+    have := hok.1; rw [hp] at this; exact this.1
+  exact safe_of_guard _ _ _ _ _ hg hok.2
 
 end Xp.C08
